@@ -6,7 +6,7 @@
    zlib is not specified here: it enters the theorems as a Section variable
    (Proofs/C02Proofs.v). *)
 From Coq Require Import String.
-From PV Require Import Base.Bytes Base.Fmt Spec.ElfGabi Spec.PrimSpec.
+From PV Require Import Base.Bytes Base.Fmt Base.Enum Spec.ElfGabi Spec.PrimSpec.
 Open Scope Z_scope.
 
 (* ---- constants (gABI figures 4-9, 4-11, 5-? and binutils include/elf/common.h) ---- *)
@@ -210,3 +210,26 @@ Definition section_view (img : list Z) (le is64 : bool) (sht flags off size alig
     | None => None
     end
   else None.
+
+(* ---- what the theorems need from an enum decoding table (value -> name, the dict construct's
+        MappingAdapter consults; regenerated in Gen/ElfLayouts.v).  Boolean, so that they are
+        decided by computation for every table the code can select. ---- *)
+(* [name_code_ok T n c]: in decoding table T, exactly the value c is reported under name n *)
+Definition name_code_ok (T : list (Z * string)) (n : string) (c : Z) : bool :=
+  (match dict_get T c with Some m => String.eqb m n | None => false end)
+  && forallb (fun kv => implb (String.eqb (snd kv) n) (fst kv =? c)) T.
+
+(* no key of T lies in [lo, hi]: such values stay raw integers *)
+Definition no_key_between (T : list (Z * string)) (lo hi : Z) : bool :=
+  forallb (fun kv => negb ((lo <=? fst kv) && (fst kv <=? hi))) T.
+
+(* the sh_type facts Section.data relies on, for a decoding table *)
+Definition sh_type_table_ok (T : list (Z * string)) : bool := name_code_ok T "SHT_NOBITS" SHT_NOBITS.
+(* the p_type facts address_offsets and section_in_segment rely on *)
+Definition p_type_table_ok (T : list (Z * string)) : bool :=
+  name_code_ok T "PT_LOAD" PT_LOAD && name_code_ok T "PT_DYNAMIC" PT_DYNAMIC &&
+  name_code_ok T "PT_NOTE" PT_NOTE && name_code_ok T "PT_PHDR" PT_PHDR &&
+  name_code_ok T "PT_TLS" PT_TLS && name_code_ok T "PT_GNU_EH_FRAME" PT_GNU_EH_FRAME &&
+  name_code_ok T "PT_GNU_STACK" PT_GNU_STACK && name_code_ok T "PT_GNU_RELRO" PT_GNU_RELRO &&
+  no_key_between T PT_GNU_SFRAME PT_GNU_MBIND_HI.
+
